@@ -444,7 +444,40 @@ def rule_get_year(ck: Check, repo: Repo, rid: str = "R4") -> None:
     # merge branch of create_header
     ch = repo.func("reuse.header.create_header")
     cs = ast.unparse(ch)
-    ok = "merge_copyright_lines(reuse_info.copyright_lines.union(existing_spdx.copyright_lines))" in cs
+    # structural: some merge call of create_header receives (through whatever locals) the union of the requested and the
+    # existing notices, in either operand order, spelled `.union()` or `|`
+    from ..rules import reaching_value as _reach
+    A, B = "reuse_info.copyright_lines", "extract_reuse_info(header).copyright_lines"
+    accepted = {f"{A}.union({B})", f"{B}.union({A})", f"{A} | {B}", f"{B} | {A}"}
+    seen_inputs = []
+    for c in ast.walk(ch):
+        if isinstance(c, ast.Call) and ast.unparse(c.func) == "merge_copyright_lines" and c.args:
+            a = c.args[0]
+            if isinstance(a, ast.Name):
+                a = _reach(ch, a) or a
+            seen_inputs.append(deep_text(ch, a))
+    ok = any(t in accepted for t in seen_inputs)
+    # ... on EVERY --merge-copyrights path with an existing header: the tests that guard that merge call speak about
+    # `merge_copyrights` and `header` only (a merge that also waits for "something new was added" leaves old notices unmerged)
+    from ..rules import resolve_deep as _rd20
+    for c in ast.walk(ch):
+        if isinstance(c, ast.Call) and ast.unparse(c.func) == "merge_copyright_lines" and c.args:
+            a = c.args[0]
+            if isinstance(a, ast.Name):
+                a = _reach(ch, a) or a
+            if deep_text(ch, a) not in accepted:
+                continue
+            for g in ast.walk(ch):
+                tests = []
+                if isinstance(g, ast.If) and any(x is c for st in g.body + g.orelse for x in ast.walk(st)):
+                    tests.append(g.test)
+                elif isinstance(g, ast.IfExp) and any(x is c for x in ast.walk(g.body)) or (isinstance(g, ast.IfExp) and any(x is c for x in ast.walk(g.orelse))):
+                    tests.append(g.test)
+                for t in tests:
+                    extra = sorted({n.id for n in ast.walk(_rd20(ch, t)) if isinstance(n, ast.Name)} - {"merge_copyrights", "header"})
+                    r.instance(f"merge-guard:{ast.unparse(t)[:40]}", {"names": extra})
+                    if extra:
+                        ok = False
     r.instance("create_header.merge", {"ok": ok})
     if not ok:
         r.violation("reuse.header.create_header", "merge input", "merge must receive the union of requested and existing notices",
